@@ -205,6 +205,11 @@ OPAQUE = {
     "_compute_hmac_bytes": {"raises": [], "returns": STR},
     # difflib.get_close_matches over (str, set[str]) (assumed contract A4: total; only feeds the error message text)
     "_find_similar_names": {"raises": [], "returns": OPT(STR)},
+    # uuid-based id generation and the frozen event dataclasses built from keyword arguments (assumed contracts A4: total)
+    "_generate_run_id": {"raises": [], "returns": STR},
+    "_generate_span_id": {"raises": [], "returns": STR},
+    "RunStartEvent": {"raises": [], "returns": ANY},
+    "RunEndEvent": {"raises": [], "returns": ANY},
     # graph/validation.py:_values_equal (assumed contract A4): total (catches ValueError/TypeError itself) and a pure
     # function of its two arguments; NOT assumed reflexive, symmetric or transitive
     "_values_equal": {"raises": [], "returns": BOOL, "pure": True},
